@@ -523,7 +523,7 @@ func runC20(ci interface{}, st *CaseStats) error {
 func metricNamesInSource() []string {
 	re := regexp.MustCompile(`Emit(?:Counter|Gauge|Histogram)\("([^"]+)"`)
 	set := map[string]bool{}
-	_ = filepath.Walk("/repo/pkg", func(p string, info os.FileInfo, err error) error {
+	_ = filepath.Walk(EnvStr("VERIF_REPO", "/repo")+"/pkg", func(p string, info os.FileInfo, err error) error {
 		if err != nil || info.IsDir() || !strings.HasSuffix(p, ".go") || strings.HasSuffix(p, "_test.go") {
 			return nil
 		}
